@@ -40,7 +40,7 @@ HERE = os.path.abspath(__file__)
 MP = refmp.build(b'BND', [(refmp.cd('t'), b'v%d'), (refmp.cd('f', 'n.bin', 'text/plain'), b'data%d')], epilogue=b'\r\n')[0]
 MP_RICH = refmp.build(b'BND', [(refmp.cd('t'), b'v%d'), (refmp.cd('f', 'n.png', 'image/png') + b'\r\nX-Owner: owner-%d', b'data%d')], epilogue=b'\r\n')[0]
 MP = refmp.build(b'BND', [(refmp.cd('t'), b'v%d'), (refmp.cd('f', 'n.bin'), b'data%d')], epilogue=b'\r\n')[0]
-KINDS = ['getq', 'form', 'upload', 'raise', 'crash', '404', 'gen', 'wild', 'chunked', 'badform', 'badchunkj', 'badchunkh', 'notmod', 'rex', 'session', 'dm', 'sfile', '404first', 'm405', 'rhook']
+KINDS = ['getq', 'form', 'upload', 'raise', 'crash', '404', 'gen', 'wild', 'chunked', 'badform', 'badchunkj', 'badchunkh', 'notmod', 'rex', 'session', 'dm', 'sfile', '404first', 'm405', 'rhook', 'st599', 'critical']
 SESSION_SECRET = 'k8'
 
 
@@ -213,6 +213,23 @@ def make_app(om, obs):
             return om.static_file('blob.zzunknown', root=static_root())
         dapp.route('/sfile', 'GET', sfile)
     app.c08_default = dapp
+    # an application whose 404 handler fails itself: its answers are last-resort pages (served by a server that, like wsgiref, adds
+    # entries of its own to the header list it is given)
+    capp = om.Ombott()
+
+    @capp.error(404)
+    def failing_404(res):
+        raise RuntimeError('error handler failed')
+    app.c08_critical = capp
+
+    def st599():
+        ident = app.request.headers.get('X-Id')
+        snap('p1', ident)
+        # a status code without a registered phrase: request 1 gives a phrase of its own, the others the bare number
+        app.response.status = ('599 Upstream timed out for ' + ident) if ident == '1' else 599
+        snap('p2', ident)
+        return 'st599:' + ident
+    app.route('/st599', 'GET', st599)
     app.route('/notmod', 'GET', notmod)
     # a route hook guards everything below /adm (403 without a token); /pub has no hook
     def guard(prefix):
@@ -268,6 +285,10 @@ def environ_for(kind, ident):
     if kind == 'rhook':
         # request 1 asks for the guarded page without a token, request 2 for the public page, request 3 for the guarded page with the token
         return wsgi.environ('GET', '/pub/info' if ident == '2' else '/adm/report', qs='token=let-me-in' if ident == '3' else 'r=' + ident, headers=h)
+    if kind == 'st599':
+        return wsgi.environ('GET', '/st599', qs='s=' + ident, headers=h)
+    if kind == 'critical':
+        return wsgi.environ('GET', '/nowhere/' + ident * (7 * int(ident)), headers=h)
     if kind == 'm405':
         return wsgi.environ('DELETE', '/reports' if ident == '1' else '/jobs', qs='m=' + ident, headers=h)
     if kind == 'sfile':
@@ -306,7 +327,10 @@ def session_cookie():
 
 
 def serve(app, kind, ident):
-    c = wsgi.call(app.c08_default if kind == 'sfile' else app, environ_for(kind, ident))
+    if kind == 'critical':
+        c = wsgi.call(app.c08_critical, environ_for(kind, ident), server_edits_headers=True)
+    else:
+        c = wsgi.call(app.c08_default if kind == 'sfile' else app, environ_for(kind, ident))
     if c.escaped is not None:
         return ('escaped', repr(c.escaped), b'')
     return (c.status, tuple((str(a), str(b)) for a, b in (c.headers or [])), c.body)
@@ -315,7 +339,7 @@ def serve(app, kind, ident):
 _solo = {}
 
 
-FRESH_KINDS = {'badform', 'badchunkj', 'badchunkh', 'session', 'upload', '404first', 'sfile'}     # requests answered through the shared error objects of errors_map:
+FRESH_KINDS = {'badform', 'badchunkj', 'badchunkh', 'session', 'upload', '404first', 'sfile', 'st599', 'critical'}     # requests answered through the shared error objects of errors_map:
 #                                                          every execution (and the stand-alone run) starts from a fresh import
 
 
@@ -370,7 +394,7 @@ def judge(om, kinds, x):
 
 QUICK_PAIRS = [('getq', k) for k in KINDS[:8]] + [('raise', 'crash'), ('form', 'upload'), ('wild', 'wild'), ('404', 'crash'), ('gen', 'gen'),
                ('chunked', 'chunked'), ('badform', 'badform'), ('badchunkj', 'badchunkh'), ('getq', 'notmod'), ('notmod', 'crash'),
-               ('rex', 'rex'), ('session', 'session'), ('upload', 'upload'), ('sfile', 'sfile'), ('404first', '404first'), ('m405', 'm405'), ('rhook', 'rhook')]
+               ('rex', 'rex'), ('session', 'session'), ('upload', 'upload'), ('sfile', 'sfile'), ('404first', '404first'), ('m405', 'm405'), ('rhook', 'rhook'), ('st599', 'st599'), ('critical', 'critical')]
 
 
 def pairs():
